@@ -3,6 +3,9 @@ from harness import session_check, session_props
 
 
 def run(tier, report):
+    # unbounded companion: the uniqueness bookkeeping as an inductive invariant (any number of rows and data sets)
+    from harness import core
+    report.notes["unbounded_argument"] = core.apalache_inductive("MC_UniqueInductive.tla", "IndInit", "IndInv")
     return session_props.run_plan("C05", tier, report)
 
 
